@@ -292,7 +292,10 @@ class Server(base_server.BaseServer):
                                     r = packets
                             except exceptions.EngineIOError:
                                 if sid in self.sockets:  # pragma: no cover
-                                    self.disconnect(sid)
+                                    socket.close(
+                                        wait=False,
+                                        reason=self.reason.SERVER_DISCONNECT)
+                                    self.sockets.pop(sid, None)
                                 r = self._bad_request()
                             if sid in self.sockets and \
                                     self.sockets[sid].closed:
@@ -308,7 +311,10 @@ class Server(base_server.BaseServer):
                     r = self._ok(jsonp_index=jsonp_index)
                 except exceptions.EngineIOError:
                     if sid in self.sockets:  # pragma: no cover
-                        self.disconnect(sid)
+                        socket.close(
+                            wait=False,
+                            reason=self.reason.SERVER_DISCONNECT)
+                        self.sockets.pop(sid, None)
                     r = self._bad_request()
                 except:  # pragma: no cover
                     # for any other unexpected errors, we log the error
